@@ -1060,6 +1060,7 @@ fn scaling_case(spec: &ChildSpec, idx: u64, st: &mut Stats) {
         last = json!({"len": text.len(), "accepted": m.accepted, "cpu_s": m.cpu_s, "wall_s": m.wall_s,
                       "measurement_given_up_at_cap": m.capped});
         st.max(&format!("max_parse_ms:{family}"), (m.cpu_s * 1000.0) as u64);
+        st.max(&format!("max_parse_us@{}:{family}", text.len()), (m.cpu_s * 1e6) as u64);
         // linear growth so far: only constant-factor noise separates the measurement from the
         // bound, so the bound is doubled; superlinear growth: the bound itself
         let n = times.len();
@@ -1250,11 +1251,11 @@ fn main() {
                             }
                             proc::ChildResult::Failed(e) => local.inconclusive(format!("child failure on scaling family {}: {e}", SCALING[fams[i] as usize])),
                         }
-                        merged.lock().unwrap().merge(local);
+                        proc::merge_dedup(&mut merged.lock().unwrap(), local);
                     });
                 }
             });
-            st.merge(merged.into_inner().unwrap());
+            proc::merge_dedup(&mut st, merged.into_inner().unwrap());
             st
         }))
     } else {
@@ -1279,32 +1280,36 @@ fn main() {
         for m in missing {
             run.stats.inconclusive(format!("corpus source unreadable: {m}"));
         }
-        proc::run_section(&mut run, "corpus", n * t.pick(2, 30), 48, 0.25, w, stack_kib, wd);
+        proc::run_section(&mut run, "corpus", n * t.pick(2, 24), 48, 0.25, w, stack_kib, wd);
         lap("corpus", &run, &mut section_wall);
     }
     if run.wants("gen") {
-        proc::run_section(&mut run, "gen", t.pick(16_000, 1_200_000), t.pick(250, 4000), 0.75, w, stack_kib, wd);
+        proc::run_section(&mut run, "gen", t.pick(16_000, 1_000_000), t.pick(250, 4000), 0.75, w, stack_kib, wd);
         lap("gen", &run, &mut section_wall);
     }
     if run.wants("noise") {
-        proc::run_section(&mut run, "noise", t.pick(4_000, 300_000), t.pick(125, 4000), 0.9, w, stack_kib, wd);
+        proc::run_section(&mut run, "noise", t.pick(4_000, 240_000), t.pick(125, 3000), 0.9, w, stack_kib, wd);
         lap("noise", &run, &mut section_wall);
     }
     if let Some(h) = scaling {
         match h.join() {
             Ok(st) => {
-                // keep every scaling measurement in the evidence, not only the first few samples
-                let rows: Vec<Value> = st.samples.iter().filter(|s| s.get("kind").and_then(|k| k.as_str()) == Some("scaling")).cloned().collect();
-                let mut table = BTreeMap::new();
-                for r in rows {
-                    if let Some(f) = r.get("family").and_then(|f| f.as_str()) {
-                        table.insert(f.to_string(), r.clone());
+                // every scaling measurement goes into the evidence as a table family -> {bytes: cpu seconds}
+                // family -> [[input bytes, cpu seconds], ...] in increasing size
+                let mut table: BTreeMap<String, BTreeMap<u64, f64>> = BTreeMap::new();
+                for (k, v) in &st.counters {
+                    if let Some(rest) = k.strip_prefix("max_parse_us@") {
+                        if let Some((len, fam)) = rest.split_once(':') {
+                            table.entry(fam.to_string()).or_default().insert(len.parse().unwrap_or(0), *v as f64 / 1e6);
+                        }
                     }
                 }
-                run.set_extra("parse_time_at_doubling_sizes", json!(table));
+                let table: BTreeMap<String, Vec<(u64, f64)>> = table.into_iter().map(|(k, v)| (k, v.into_iter().collect())).collect();
+                run.set_extra("parse_cpu_seconds_by_input_bytes", json!(table));
                 let mut st = st;
                 st.samples.clear();
-                run.stats.merge(st);
+                st.counters.retain(|k, _| !k.starts_with("max_parse_us@"));
+                proc::merge_dedup(&mut run.stats, st);
             }
             Err(_) => run.stats.inconclusive("scaling thread panicked"),
         }
